@@ -367,6 +367,7 @@ const (
 	vC14PrevNil
 	vC14Long
 	vC14Filtered
+	vC14NoDelta // published without the delta flag (mixed delta / non-delta publishes)
 	vC14NAnom
 )
 
@@ -425,7 +426,11 @@ func vh_C14_seq() {
 		if k > 0 && !flags[k][vC14PrevNil] {
 			prev = pubs[k-1] // broker contract: the previous publication of the stream
 		}
-		err := n.HandlePublication(vC14Chan, pub, sp, true, prev)
+		useDelta := !flags[k][vC14NoDelta]
+		if !useDelta {
+			prev = nil // a broker only supplies the previous publication for delta publishes
+		}
+		err := n.HandlePublication(vC14Chan, pub, sp, useDelta, prev)
 		vAssert(err == nil, "handle publication ok")
 		vSettle()
 		early.consume(env, pub.Data)
